@@ -86,15 +86,36 @@ theorem plain_allKers {txs : List Tx} (hp : ∀ t ∈ txs, Plain t) : ∀ k ∈ 
   obtain ⟨t, ht, hkt⟩ := mem_flatMap.1 hk
   exact (hp t ht).2 k hkt
 
+/-- `verify_sorted_and_unique` accepts a vector in hash order without two adjacent equal elements -/
+theorem sortedUnique_none {key : Nat → Nat} : ∀ {l : List Nat}, l.Pairwise (KeyLe key) → adjDup l = false →
+    sortedUnique key l = none
+  | [], _, _ => rfl
+  | [_], _, _ => rfl
+  | a :: b :: t, s, d => by
+    have hab : key a ≤ key b := (pairwise_cons.1 s).1 b mem_cons_self
+    simp only [adjDup, Bool.or_eq_false_iff] at d
+    have ih := sortedUnique_none (pairwise_cons.1 s).2 d.2
+    simp only [sortedUnique, Nat.not_lt.2 hab, d.1, ih, if_false, Bool.false_eq_true]
+
+/-- the image of a duplicate-free list under a map that is injective on it carries every value at
+most once -/
+theorem count_map_le_one {f : Nat → Nat} {l : List Nat} (inj : InjOn f l) (nd : l.Nodup) (c : Nat) :
+    (l.map f).count c ≤ 1 := by
+  by_cases hc : c ∈ l.map f
+  · obtain ⟨x, hx, rfl⟩ := mem_map.1 hc
+    rw [count_map_of_injOn hx inj]
+    exact nodup_iff_count.1 nd x
+  · rw [count_eq_zero.2 hc]; omega
+
 /-- `aggregate` of normal transactions that share nothing (no common input, output or kernel) and
-do not spend each other's outputs: plain sorted union, offsets summed. -/
+do not spend each other's outputs: always succeeds (whatever the offsets are, also when they cancel),
+plain sorted union, offsets summed. -/
 theorem aggregate_disjoint {K : Keys} {txs : List Tx} (kinj : KInj K) (hn : ∀ t ∈ txs, Normal K t)
     (ndI : (allIns K txs).Nodup) (ndO : (allOuts txs).Nodup)
     (hdis : ∀ x ∈ allIns K txs, x ∉ (allOuts txs).map outCommit) :
     aggregate K txs =
-      match sumKernelOffsets (allOffs txs) [] with
-      | .error e => .error e
-      | .ok off => .ok ⟨off, false, sortBy K.ik (allIns K txs), sortBy K.ok (allOuts txs), sortBy K.kk (allKers txs)⟩ := by
+      .ok ⟨(toSecrets (allOffs txs)).sum % N, false, sortBy K.ik (allIns K txs), sortBy K.ok (allOuts txs),
+        sortBy K.kk (allKers txs)⟩ := by
   rw [aggregate_eq_full hn]
   exact aggregateFull_disjoint (kinj.ik _) (kinj.ok _) ndI ndO hdis
 
@@ -127,7 +148,8 @@ def t5 : Tx := ⟨N - 2, false, [30], [64], [8]⟩
 macro "tx_eval" : tactic => `(tactic|
   simp [aggregate, aggregateFull, deaggregate, pushNew, fromReward, compact, hydrateFrom, insertSorted, isCoinbase,
     cutThrough, sortBy, cutMerge, adjDup, List.mergeSort,
-    List.MergeSort.Internal.splitInTwo, List.merge, sumKernelOffsets, toSecrets, blindSum, N, Tx.inputsCO, outCommit,
+    List.MergeSort.Internal.splitInTwo, List.merge, sumKernelOffsets, toSecrets, blindSumOrZero, secpBlindSum, scalarSum,
+    N, Tx.inputsCO, outCommit,
     K0, t1, t2, t3, t4, t5, Tx.empty])
 
 theorem normal1 : Normal K0 t1 := by unfold Normal; tx_eval
